@@ -14,7 +14,7 @@ engine's authentic message.
 from .. import rig  # noqa: F401
 from .. import agent as agent_mod
 from .. import ber, budget, privxf
-from ..rig import OID, World, drive
+from ..rig import OID, World, drive, drive_agen
 
 PROP = "C09"
 LEVEL = "fault_enumeration"
@@ -69,6 +69,10 @@ def call(w, op, variant=0):
         return drive(c.bulkget([OID(KEYS[0])], [OID((1, 3, 6, 1, 2, 1, 1 + variant % 2))], max_list_size=2))
     if op == "set":
         return drive(c.set(OID(KEYS[2]), rig.from_tuple(("str", b"new-name-%d" % variant))))
+    if op == "walk":
+        return drive_agen(c.walk(OID((1, 3, 6, 1, 2, 1, 1))), limit=40)
+    if op == "bulkwalk":
+        return drive_agen(c.bulkwalk([OID((1, 3, 6, 1, 2, 1, 1))], bulk_size=2), limit=40)
     raise ValueError(op)
 
 
@@ -99,22 +103,25 @@ def _norm(op, res):
         return (_o(res.oid), rig.to_tuple(res.value))
     if op == "bulkget":
         return ([(_o(k), rig.to_tuple(v)) for k, v in res.scalars.items()], [(_o(k), rig.to_tuple(v)) for k, v in res.listing.items()])
+    if op in ("walk", "bulkwalk"):
+        return [(_o(vb.oid), rig.to_tuple(vb.value)) for vb in res]
     raise ValueError(op)
 
 
 class Target:
     """One authentic exchange that the attacker tampers with."""
 
-    def __init__(self, level, op, variant):
-        self.level, self.op, self.variant = level, op, variant
+    def __init__(self, level, op, variant, k=0):
+        """k: which exchange of the operation the attacker tampers with (walks: 1 = the second)."""
+        self.level, self.op, self.variant, self.k = level, op, variant, k
         self.w = World(level, DB)
         self.w.prime()
         self.w.seam.budget = None
         self.authentic = norm(op, call(self.w, op, variant))
-        self.resp = self.w.seam.responses[-1]
-        self.req = self.w.seam.requests[-1]
+        self.resp = self.w.seam.responses[k]
+        self.req = self.w.seam.requests[k]
         self.msg = ber.decode_message(self.resp)
-        rec = [r for r in self.w.agent.requests if "response_pdu" in r][-1]
+        rec = [r for r in self.w.agent.requests if "response_pdu" in r][k]
         self.resp_pdu = rec["response_pdu"]
         self.req_pdu = rec["pdu"]
         self.ctx_name = rec["scoped"]["ctx_name"]
@@ -125,11 +132,28 @@ class Target:
 
     def try_response(self, data):
         """Deliver ``data`` as the answer to a fresh run of the operation."""
-        self.w.set_responder(lambda _req: data)
+        state = {"n": 0}
+        agent = self.w.agent
+
+        def responder(req):
+            i = state["n"]
+            state["n"] += 1
+            # single-exchange operations: the tampered datagram answers every attempt;
+            # walks: exactly exchange k is tampered with, the others are authentic
+            if self.k == 0 or i == self.k:
+                return data
+            return agent.handle(req)
+
+        self.w.set_responder(responder)
+        self.w.seam.reset(budget=40)
         try:
-            return budget.run_budgeted(lambda: call(self.w, self.op, self.variant), 300000, light=True)
+            try:
+                return budget.run_budgeted(lambda: call(self.w, self.op, self.variant), 600000, light=True)
+            except rig.BudgetExceeded:
+                return "exc", "request budget exceeded", 0
         finally:
             self.w.set_responder(self.w.agent.handle)
+            self.w.seam.reset()
 
     def try_attack(self, responder):
         """A stateful man in the middle: responder(request bytes) -> bytes | None."""
@@ -228,6 +252,14 @@ def forgeries(t):
     r4 = dict(rep)
     r4["varbinds"] = []
     yield "report-empty", t.build(0, r4)
+    # unauthenticated Reports carrying an ERROR-STATUS (noSuchName ends a walk, ...)
+    for status in (2, 1, 5, 13):
+        for vbs in ([], [(o, ("null", None)) for o, _ in t.req_pdu["varbinds"]]):
+            r5 = dict(rep)
+            r5["error_status"] = status
+            r5["error_index"] = 1 if vbs else 0
+            r5["varbinds"] = vbs
+            yield "report-error-status-%d-%s" % (status, "echo" if vbs else "empty"), t.build(0, r5)
     # engine timing rewritten (unauthenticated fields are covered by the digest)
     yield "boots-time-rewritten-digest-kept", t.build(t.msg["flags"], None if "encrypted" in t.msg else alt, encrypted=t.msg.get("encrypted"), digest=orig_digest, priv=t.msg["usm"]["priv"], usm_over={"boots": 9, "time": 99})
 
@@ -271,7 +303,7 @@ def attacks(t):
 
 
 def judge(R, t, fault, pos, data, kind, val, steps):
-    case = {"level": t.level, "op": t.op, "variant": t.variant, "fault": fault, "pos": pos, "datagram": "hex:" + data.hex()}
+    case = {"level": t.level, "op": t.op, "variant": t.variant, "k": t.k, "fault": fault, "pos": pos, "datagram": "hex:" + data.hex()}
     if kind == "over":
         R.mon["aborted_by_budget"] += 1
         return
@@ -318,18 +350,23 @@ def flips(t, clear):
 
 
 def targets(tier):
+    """(level, op, variant, k, with_flips)"""
     levels = rig.AUTH_LEVELS
     out = []
     if tier == "quick":
         plan = [("get", 0), ("bulkget", 0)]
         for lv in levels:
             for op, var in plan:
-                out.append((lv, op, var))
+                out.append((lv, op, var, 0, True))
     else:
         for lv in levels:
             for op in OPS:
                 for var in (0, 1, 2):
-                    out.append((lv, op, var))
+                    out.append((lv, op, var, 0, True))
+    # walks: the attacker tampers with the second exchange (forgeries and attacks only)
+    for lv in levels:
+        for op in ("walk", "bulkwalk"):
+            out.append((lv, op, 0, 1, False))
     return out
 
 
@@ -338,18 +375,18 @@ def run(R):
     R.notes["authentic_responses"] = len(tl)
     idx = 0
     complete = True
-    for ti, (level, op, var) in enumerate(tl):
-        t = Target(level, op, var)
+    for ti, (level, op, var, k, with_flips) in enumerate(tl):
+        t = Target(level, op, var, k)
         priv = level.endswith("-priv")
         R.notes.setdefault("response_sizes", {})["%s/%s/%d" % (level, op, var)] = len(t.resp)
         # sanity: the untouched authentic response is accepted
         kind, val, _ = t.try_response(t.resp)
-        if kind != "ok" or norm(op, val) != t.authentic:
+        if kind != "ok" or norm(op, val) != t.authentic:  # (walks: exchange k answered with its own authentic response)
             R.inconclusive("authentic response not accepted on replay (%s/%s): %r" % (level, op, val))
             return
         R.mon["authentic_replay_accepted"] += 1
-        plans = [("flip", 0), ("flip+clear-auth", 1)]
-        if priv:
+        plans = [("flip", 0), ("flip+clear-auth", 1)] if with_flips else []
+        if priv and with_flips:
             plans.append(("flip+clear-auth+priv", 3))
         for name, clear in plans:
             for pos, data in flips(t, clear):
@@ -390,7 +427,7 @@ def run(R):
 
 def replay(R, v):
     c = v["case"]
-    t = Target(c["level"], c["op"], c["variant"])
+    t = Target(c["level"], c["op"], c["variant"], c.get("k", 0))
     data = bytes.fromhex(c["datagram"][4:])
     kind, val, steps = t.try_response(data)
     R.evaluations += 1
